@@ -106,7 +106,7 @@ func runC01(p *Program, r *Report) {
 	} else if bv, blk := loopByteVar(fn, fn.Params[0]); bv == nil {
 		r.Undec("C01.R2", "template.eatWhiteSpace", p.Pos(fn.Pos()), "loop byte not found")
 	} else {
-		lv := decisionTable(blk, dtConfig{Var: bv, Dom: byteDomain(), Leaf: func(b *ssa.BasicBlock) (string, bool) {
+		lv := decisionTable(blk, dtConfig{Tables: constBoolTables(p, "template"), Var: bv, Dom: byteDomain(), Leaf: func(b *ssa.BasicBlock) (string, bool) {
 			if b != blk && b.Dominates(blk) {
 				return "", false
 			}
@@ -128,7 +128,7 @@ func runC01(p *Program, r *Report) {
 	} else if bv, blk := loopByteVar(fn, fn.Params[0]); bv == nil {
 		r.Undec("C01.R2", "template.eatAttrName", p.Pos(fn.Pos()), "loop byte not found")
 	} else {
-		lv := decisionTable(blk, dtConfig{Var: bv, Dom: byteDomain(), Leaf: func(b *ssa.BasicBlock) (string, bool) {
+		lv := decisionTable(blk, dtConfig{Tables: constBoolTables(p, "template"), Var: bv, Dom: byteDomain(), Leaf: func(b *ssa.BasicBlock) (string, bool) {
 			if ret, ok := b.Instrs[len(b.Instrs)-1].(*ssa.Return); ok {
 				if isNilConst(ret.Results[1]) {
 					return "terminator", true
@@ -318,6 +318,7 @@ func runC01(p *Program, r *Report) {
 	checkContextFieldCompleteness(p, r)
 	// ---- R6 joins -----------------------------------------------------------------------------------------
 	checkJoins(p, r)
+	checkMemoOutput(p, r, "C01.R6")
 	// ---- R7 chains end in an escaper --------------------------------------------------------------------------
 	if pl, err := loadPolicy(p); err != nil {
 		r.Undec("C01.R7", "template#policy", "", err.Error())
@@ -532,9 +533,29 @@ func checkJoins(p *Program, r *Report) {
 			n++
 			v := pth.Resolve(ret.Results[0])
 			isLit := false
-			if u, okU := v.(*ssa.UnOp); okU {
-				if al, okA := u.X.(*ssa.Alloc); okA && strings.Contains(al.Comment, "complit") {
-					isLit = true
+			isComplit := func(x ssa.Value) bool {
+				if u, okU := x.(*ssa.UnOp); okU {
+					if al, okA := u.X.(*ssa.Alloc); okA && strings.Contains(al.Comment, "complit") {
+						return true
+					}
+				}
+				return false
+			}
+			if isComplit(v) {
+				isLit = true
+			} else if u, okU := v.(*ssa.UnOp); okU {
+				// a local that was last assigned the error literal on this path (as a whole, or field by field)
+				if al, okA := u.X.(*ssa.Alloc); okA {
+					if sv, found := pth.localAt(al, len(pth.Blocks)-1, ssa.Instruction(u), 0); found && isComplit(sv) {
+						isLit = true
+					}
+					for _, st := range storesToField(fn, pkgTemplate, "context", "state") {
+						if fa := st.Addr.(*ssa.FieldAddr); fa.X == ssa.Value(al) && pth.Passes(st) {
+							if k, okK := constInt(st.Val); okK && k == stErr {
+								isLit = true
+							}
+						}
+					}
 				}
 			}
 			okPath := pth.HasMatching(func(nm string, val bool) bool {
@@ -547,4 +568,3 @@ func checkJoins(p *Program, r *Report) {
 		r.Check(ok && n > 0, "C01.R6", "template.(*escaper).computeOutCtx", p.Pos(fn.Pos()), "a called template's output context is used only if its body analysis reported a consistent result (or carries an error)", "the output context of a template call is used although its recursive analysis did not converge")
 	}
 }
-
